@@ -604,7 +604,8 @@ def cmp_sequence(b, F):
         if ob != sb:
             return b.dominates(ob, sb)
         return o[0][1:] < s[0][1:]
-    items.sort(key=lambda s: sum(1 for o in items if o is not s and before(o, s)))
+    rpo = b.rpo()
+    items.sort(key=lambda s: (rpo.get(s[0][0], 1 << 30),) + tuple(s[0][1:]))
     return [(fx, fy, k) for _, _, fx, fy, k in items]
 
 
@@ -642,7 +643,12 @@ def compare_sites(b, F, comparators=None):
         if o[0][0] != s[0][0]:
             return b.dominates(o[0][0], s[0][0])
         return tuple(map(str, o[0][1:])) < tuple(map(str, s[0][1:]))
-    out.sort(key=lambda s: sum(1 for o in out if o is not s and before(o, s)))
+    # evaluation order: reverse postorder of the block in b (agrees with dominance), then creation order of closures
+    rpo = b.rpo()
+
+    def okey(here):
+        return (rpo.get(here[0], 1 << 30),) + tuple((1, x[1]) if x[0] == "c" else (2, x[1]) if isinstance(x, tuple) else (0, x) for x in here[1:])
+    out.sort(key=lambda s: okey(s[0]))
     return [(body, bi, what, x, y) for _, body, bi, what, x, y in out]
 
 
